@@ -38,6 +38,19 @@ class PipelineTopologyError(Exception):
         self.message = message
 
 
+def format_run_count(count: int, grouped: bool = True) -> str:
+    """Render a run count for a message.
+
+    A planned run count is a product of block sizes and can be far too long for
+    Python's int-to-str conversion (``sys.get_int_max_str_digits()``); such a
+    count is given by its order of magnitude instead of raising ``ValueError``.
+    """
+    try:
+        return f"{count:,}" if grouped else str(count)
+    except ValueError:
+        return f"about 10^{int(count.bit_length() * 0.30103)}"
+
+
 class RunSpaceMaxRunsExceededError(Exception):
     """Raised when run space expansion exceeds the configured max_runs limit."""
 
@@ -45,7 +58,10 @@ class RunSpaceMaxRunsExceededError(Exception):
         self.actual_runs = actual_runs
         self.max_runs = max_runs
         if message is None:
-            message = f"Run space expansion would create {actual_runs:,} runs, exceeds `max_runs` limit of {max_runs:,}"
+            message = (
+                f"Run space expansion would create {format_run_count(actual_runs)} runs, "
+                f"exceeds `max_runs` limit of {format_run_count(max_runs)}"
+            )
         super().__init__(message)
         self.message = message
 
